@@ -131,6 +131,15 @@ pub fn check(sc: &Scen, obs: &Obs) -> Vec<Violation> {
                         Some(_) => "response-of-another-request",
                         None => "untagged-bytes",
                     };
+                    // a leftover that reached the client only after this request had been written
+                    // on the connection cannot be told from its response by any client
+                    let arrived_after_start = how == "leftover-of-earlier-exchange"
+                        && sv.conn.map_or(false, |ci| {
+                            obs.conn_starts[ci].iter().find(|s| s.ordinal == sv.ordinal).map_or(false, |s| s.unread == 0 && !s.fin_seen)
+                        });
+                    if arrived_after_start {
+                        continue;
+                    }
                     out.push(viol(
                         "b",
                         format!("foreign-response:{how}"),
